@@ -230,6 +230,14 @@ def reactant_cols(spec, species_list):
     return cols
 
 
+def spec_matrices(spec, sl):
+    """immediate and delayed stoichiometric matrices written out from the reaction definition (products - reactants, with
+    multiplicity), rows in the species order `sl`."""
+    U = np.array([[r["products"].count(s_) - r["reactants"].count(s_) for r in spec["reactions"]] for s_ in sl], dtype=int).reshape(len(sl), -1)
+    D = np.array([[list(r.get("dproducts", []) or []).count(s_) - list(r.get("dreactants", []) or []).count(s_) for r in spec["reactions"]] for s_ in sl], dtype=int).reshape(len(sl), -1)
+    return U, D
+
+
 def sim_job(M, kind, times, seed, dt, t0=0.0, safe=False, num="float", x0=None, vol0=1.0, volmodel=None,
             qlen=None, qdt=None, fuel=2000000, want_log=False, spec=None):
     """Driver job describing the interface a simulator sees, dumped from the real Model."""
@@ -240,9 +248,7 @@ def sim_job(M, kind, times, seed, dt, t0=0.0, safe=False, num="float", x0=None, 
     rules = st[6]
     if spec is not None and all(isinstance(r, dict) for r in spec.get("reactions", [])) and len(spec.get("reactions", [])) == U.shape[1]:
         # the matrices of the model job from the reaction definition too (products - reactants with multiplicity)
-        sl_ = M.get_species_list()
-        U = np.array([[r["products"].count(s_) - r["reactants"].count(s_) for r in spec["reactions"]] for s_ in sl_], dtype=int).reshape(len(sl_), -1)
-        D = np.array([[list(r.get("dproducts", []) or []).count(s_) - list(r.get("dreactants", []) or []).count(s_) for r in spec["reactions"]] for s_ in sl_], dtype=int).reshape(len(sl_), -1)
+        U, D = spec_matrices(spec, M.get_species_list())
     job = {"op": "sim", "num": num, "kind": kind, "nSpecies": int(U.shape[0]),
            "props": props_from_spec([dump_prop(q, enc) for q in M.get_propensities()], spec, M),
            "U": [[int(v) for v in U[:, j]] for j in range(U.shape[1])],
